@@ -41,6 +41,15 @@ def build(cid, cfg):
     os.makedirs(BUILD, exist_ok=True)
     out = os.path.join(BUILD, cid.lower() + ".test")
     cmd = ["go", "test", "-c", "-vet=off", "-tags", "verif", "-o", out]
+    alt = os.environ.get("VERIF_REPO")
+    if alt:
+        # exploratory runs against a private copy of the repository (never used by
+        # the registered commands): same module graph, different replace target.
+        mod = open(os.path.join(ROOT, "go.mod")).read().replace("=> /repo", "=> " + alt)
+        open(os.path.join(BUILD, "go.alt.mod"), "w").write(mod)
+        import shutil
+        shutil.copy(os.path.join(ROOT, "go.sum"), os.path.join(BUILD, "go.alt.sum"))
+        cmd += ["-modfile", os.path.join(BUILD, "go.alt.mod")]
     if cfg.get("overlay"):
         import overlay
         ov = overlay.generate(cfg["overlay"], BUILD)
@@ -70,7 +79,7 @@ def load_known():
 
 def repo_lock():
     """Serialises users of /repo's working tree (checks vs. seeded-defect runs)."""
-    if os.environ.get("VERIF_LOCK_HELD"):
+    if os.environ.get("VERIF_LOCK_HELD") or os.environ.get("VERIF_REPO"):
         return None
     import fcntl
     f = open("/tmp/verif-repo.lock", "w")
